@@ -115,6 +115,15 @@ def history(rnd, first_id, nev=14):
                 if E.size is None:
                     data = bytes(b | 0x80 for b in data)  # k LEB128 groups that never terminate early ...
                     data = bytes(x if (i + 1) % 2 else x & 0x7F for i, x in enumerate(data)) if rnd.random() < 0.7 else data
+                if E.__name__ in ("wchar", "wchar_t", "WCHAR") and rnd.random() < 0.6:
+                    # text beyond the basic plane: one character = two 16-bit units (a reader that decodes unit by unit fails)
+                    units = form["n"] if form["k"] == "fixed" else rnd.randrange(2, 6)
+                    txt = ""
+                    while units > 0:
+                        c = rnd.choice(["\U0001F600", "\U00010000", "\U0010FFFF"]) if units >= 2 and rnd.random() < 0.6 else rnd.choice(["A", "\u00e9", "\uffff"])
+                        txt += c
+                        units -= 2 if ord(c) > 0xFFFF else 1
+                    data = txt.encode("utf-16-le" if cs.endian == "<" else "utf-16-be")
                 if form["k"] == "null":
                     data += bytes(esz if rnd.random() < 0.9 else max(esz - 1, 0))
                 data += bytes(rnd.randrange(0, 2))
